@@ -162,3 +162,20 @@ def first(seq, msg):
 
 def where(f: FuncInfo, node) -> str:
     return f'{f.module.rel}:{getattr(node, "lineno", 0)}'
+
+
+def tuple_item(cfg, node, item, arity=2):
+    """The (id, payload) tuple a put hands over: the literal itself, or -- when the message was first
+    bound to a local (`msg = (uid, y); q.put(msg)`) -- that local's single reaching tuple definition."""
+    from mpsa.flow import reaching_defs
+
+    if isinstance(item, ast.Tuple):
+        return item if len(item.elts) == arity else None
+    if isinstance(item, ast.Name):
+        rd = reaching_defs(cfg, item.id, start=cfg.entry).get(node.id, frozenset())
+        if len(rd) == 1:
+            d = cfg.nodes[next(iter(rd))]
+            if isinstance(d.ast, ast.Assign) and isinstance(d.ast.value, ast.Tuple) and len(d.ast.value.elts) == arity and len(d.ast.targets) == 1 and isinstance(d.ast.targets[0], ast.Name):
+                # the tuple's components must not change between the binding and the put
+                return d.ast.value
+    return None
